@@ -258,6 +258,10 @@ func (g *G) heredoc() *Heredoc {
 			ln = g.hdLine(base, h.Dash)
 		}
 		if g.p(1, 10) {
+			// the delimiter followed by a tab (and maybe after tabs): body text, for <<- too (only leading tabs are stripped)
+			ln = []Part{Lit(pickS(g, []string{base + "\t", "\t" + base + "\t", base + "\t\t", base + " "}))}
+		}
+		if g.p(1, 10) {
 			// the delimiter of another here-document (maybe one pending on the same line) is body text here
 			ln = []Part{Lit(pickS(g, []string{"E", "EOF", "終", "END_1", "-E", "\tE"}))}
 		}
@@ -457,7 +461,15 @@ func (g *G) param(ctx string) Part {
 		return Part{K: "param", S: pickS(g, append(varNames, "@", "*", "1", "?")), Op: "len"}
 	default:
 		p := Part{K: "param", S: pickS(g, append(varNames, "1", "@", "*")), Op: pickS(g, paramOps)}
+		if g.p(1, 6) {
+			// a special parameter under an operator: ${#%}, ${?:-w}, ${-#x}, ...
+			p.S = pickS(g, []string{"#", "?", "-", "$", "!", "0"})
+		}
 		p.W = g.paramWord()
+		if p.S == "#" && len(p.W.Parts) == 0 && (p.Op == "-" || p.Op == "?" || p.Op == "#") {
+			// ${#-} ${#?} ${##} are the lengths of $- $? $#
+			p.Op = "%"
+		}
 		// "${x%%w}" is the %% operator, and the repo's tests pin "${x%#}" as a syntax
 		// error: a word for % or # never begins with % or #
 		if (p.Op == "%" || p.Op == "#") && len(p.W.Parts) > 0 && strings.ContainsAny(partText(p.W.Parts[0])[:1], "%#") {
